@@ -307,12 +307,33 @@ def mkPw (nm att : String) (ann : Ann) (args : Term) : Term :=
     else app (.pw nm att) ann args
   | Option.none => app (.pw nm att) ann args
 
+/-- both tokens are the same positive literal extent -/
+def Dim.posEq : Dim → Dim → Bool
+  | .known m, .known n => m == n && 0 < m
+  | _, _ => false
+
+/-- every position carries the same positive literal on both sides -/
+def allPos : List Dim → List Dim → Bool
+  | [], [] => true
+  | a :: as, b :: bs => a.posEq b && allPos as bs
+  | _, _ => false
+
+/-- the two token lists have the same length and agree on positive literals everywhere except at
+    ONE position (which may hold anything: different symbols, a symbol against a literal, unknown).
+    Since a Reshape preserves the number of elements, that one extent is then determined. -/
+def oneOff : List Dim → List Dim → Bool
+  | a :: as, b :: bs => (a.posEq b && oneOff as bs) || allPos as bs
+  | _, _ => false
+
 /-- `Reshape(a, s) → a` when the (trusted) annotation of this node's output and the static shape
-    of `a` are the same token list without unknowns. -/
+    of `a` are the same token list without unknowns, or differ in at most one position while all
+    other extents are equal positive literals (element-count argument). -/
 def reshapeId (ann : Ann) (a s : Term) : Term :=
   match ann.shape, shapeOf a with
   | some so, some sa =>
-    if so = sa && so.all (fun d => !d.isUnk) then a else app .reshape ann (cons a (cons s nil))
+    if so = sa && so.all (fun d => !d.isUnk) then a
+    else if oneOff so sa then a
+    else app .reshape ann (cons a (cons s nil))
   | _, _ => app .reshape ann (cons a (cons s nil))
 
 /-- `Reshape(Reshape(b, s₁), s) → Reshape(b, s)`, then `reshapeId`. -/
@@ -361,10 +382,23 @@ def normN : Nat → Term → Term
   | 0, t => t
   | n + 1, t => normN n (norm t)
 
-/-- `before`/`after` are the argument chains of graph-output terms.  Accept when the normal
-    forms agree (annotations erased). `after` must carry no annotations except on leaves. -/
-def certify (before after : Term) : Bool :=
+/-- annotations of node outputs removed (leaf annotations kept) -/
+def stripApp : Term → Term
+  | leaf id ann s => leaf id ann s
+  | boolc b => boolc b
+  | app h _ a => app h Ann.none (stripApp a)
+  | nil => nil
+  | cons t ts => cons (stripApp t) (stripApp ts)
+
+def certify1 (before after : Term) : Bool :=
   (normN 3 before).erase == (normN 3 after).erase
+
+/-- `before`/`after` are the argument chains of graph-output terms.  Accept when the normal
+    forms agree (annotations erased). `after` must carry no annotations except on leaves; `before`
+    is tried with and without its node annotations (a pass that only renames or deletes unrelated
+    nodes leaves a graph that normalises like the annotation-free `before`). -/
+def certify (before after : Term) : Bool :=
+  certify1 before after || certify1 (stripApp before) after
 
 end J2O.C02
 
